@@ -162,13 +162,15 @@ def insertKey (ks : List Bytes) (k : Bytes) : List Bytes := if ks.contains k the
 /-- `originalAllKeys[k] = o` -/
 def setOrig (m : List (Bytes × Bytes)) (k o : Bytes) : List (Bytes × Bytes) := m.filter (fun e => e.1 != k) ++ [(k, o)]
 
-/-- the words loop of `MatchFilter.GetAllBlockBloomKeysToSearch` -/
+/-- the words loop of `MatchFilter.GetAllBlockBloomKeysToSearch` (`i` = index of the head word): state = allKeys,
+originalAllKeys, wildcardExists -/
 def wordsLoop (ci lenEq : Bool) (origs : List Bytes) :
-    List (Bytes × Nat) → List Bytes × List (Bytes × Bytes) × Bool → List Bytes × List (Bytes × Bytes) × Bool
-  | [], st => st
-  | (w, i) :: r, (ks, os, wc) =>
-    if hasStar w then wordsLoop ci lenEq origs r (ks, os, true)
-    else wordsLoop ci lenEq origs r (insertKey ks w, if ci && lenEq then setOrig os w (origs.getD i []) else os, wc)
+    List Bytes → Nat → List Bytes × List (Bytes × Bytes) × Bool → List Bytes × List (Bytes × Bytes) × Bool
+  | [], _, st => st
+  | w :: r, i, (ks, os, wc) =>
+    if hasStar w then wordsLoop ci lenEq origs r (i + 1) (ks, os, true)
+    else wordsLoop ci lenEq origs r (i + 1)
+           (insertKey ks w, if ci && lenEq then setOrig os w (origs.getD i []) else os, wc)
 
 /-- `MatchFilter.GetAllBlockBloomKeysToSearch(isCaseInsensitive)` -/
 def MatchFilter.probe (mf : MatchFilter) (ci : Bool) : Probe :=
@@ -179,7 +181,7 @@ def MatchFilter.probe (mf : MatchFilter) (ci : Bool) : Probe :=
            wildcard := false, op := mf.op }
   else
     let lenEq := mf.wordsOrig.length == mf.words.length
-    let (ks, os, wc) := wordsLoop ci lenEq mf.wordsOrig mf.words.zipIdx ([], [], false)
+    let (ks, os, wc) := wordsLoop ci lenEq mf.wordsOrig mf.words 0 ([], [], false)
     { keys := ks, orig := os, wildcard := wc, op := if ks.length == 1 then .and else mf.op }
 
 /-- a string comparison `col = value` / `col != value` as `SearchQuery.GetAllBlockBloomKeysToSearch` sees it:
